@@ -3,7 +3,7 @@ import json
 
 from lib import vlib
 
-ENVNAMES = '  EnvNames = {"A", "B", "a"}\n'
+ENVNAMES = '  EnvNames = {"A", "B", "a", "env::A"}\n'
 CFG = "SPECIFICATION Spec\nCONSTANTS\n  DoExport = TRUE\n" + ENVNAMES + "INVARIANTS InvInjective Export\nCHECK_DEADLOCK FALSE\n"
 ASSUMPTIONS = [
     "The real payload bytes are those the library logs under WithDebugSigning(true), for Sign and for Verify.",
@@ -34,6 +34,8 @@ def run(ctx, replay):
     cases = vlib.export_cases(a)
     if len(cases) != a.distinct:
         raise vlib.MachineryError("export: %d cases for %d states" % (len(cases), a.distinct))
+    for i, c in enumerate(cases):
+        c["rot"] = i * 5 + ctx.seed
     traces, sums = vlib.drive_cases(ctx, "c14", cases, nchunks=16, extra=["-repeats", 24 if thorough else 5])
     t2, s2 = vlib.drive_gen(ctx, "c14", 8, extra=["-docs", 400 if thorough else 60, "-repeats", 8 if thorough else 3])
     n, bad = vlib.judge(ctx, "Trace_Payload", traces + t2)
